@@ -107,14 +107,19 @@ def main():
                 shutil.rmtree(os.path.join('/tmp/verif_coq', hashlib.md5(os.path.realpath(repo).encode()).hexdigest()[:10]), ignore_errors=True)
         own = res.get('checks', {}).get(meta['property'], {})
         res['caught'] = bool(own.get('violation'))
-        with open(os.path.join(sdir, 'result.json'), 'w') as f:
+        tmp = os.path.join(sdir, 'result.json.tmp%d' % os.getpid())      # atomic: several runners may work in parallel
+        with open(tmp, 'w') as f:
             json.dump(res, f, indent=1, sort_keys=True)
+        os.replace(tmp, os.path.join(sdir, 'result.json'))
         print('%-10s %s demo clean/patched=%s/%s caught=%s %s' % (sid, meta['property'], res.get('demo_clean_rc'), res.get('demo_patched_rc'),
                                                                    res['caught'], own.get('lines', own)))
     # table
     rows = []
     for sid in sorted(d for d in os.listdir(SEEDED) if os.path.isfile(os.path.join(SEEDED, d, 'result.json'))):
-        r = json.load(open(os.path.join(SEEDED, sid, 'result.json')))
+        try:
+            r = json.load(open(os.path.join(SEEDED, sid, 'result.json')))
+        except ValueError:
+            continue
         m = json.load(open(os.path.join(SEEDED, sid, 'meta.json')))
         others = [p for p, c in r.get('checks', {}).items() if p != r['property'] and c.get('violation')]
         own = r.get('checks', {}).get(r['property'], {})
